@@ -485,7 +485,7 @@ class SymbolKindFinder:
         def make_kim(phase_name, check):
             return KindInferenceMapper(
                     result.global_table,
-                    result.per_phase_table.get(phase_name, {}),
+                    result.per_phase_table.setdefault(phase_name, {}),
                     self.function_registry,
                     check=False)
 
